@@ -4,7 +4,7 @@
     the per-run translator obligations and the correspondence), about the Thomas solver, and about the drivers. *)
 From Coq Require Import Reals List Lra Lia.
 From Dadi Require Import Base.Num Base.NumR Model.Tridiag Model.Scheme Model.NDSweep
-  Proofs.TridiagProofs Proofs.SchemeProofs Proofs.Drivers Proofs.NDLines Proofs.NDSweepProofs Proofs.Pivots Proofs.PivotsDominant.
+  Proofs.TridiagProofs Proofs.SchemeProofs Proofs.Drivers Proofs.NDLines Proofs.NDSweepProofs Proofs.Pivots Proofs.PivotsDominant Proofs.PrecalcPython.
 Import ListNotations.
 Local Open Scope R_scope.
 
@@ -118,6 +118,26 @@ Theorem C02_precalc_rows_are_onthefly_rows : forall xs Vf Mf nu c0 c1 dt use_del
         (map (fun i => (coef_a xs Vf Mf use_delj i, nadd (coef_b0 xs Vf Mf nu c0 c1 use_delj i) (ndiv n1 dt),
                         coef_c xs Vf Mf use_delj i, ndiv (nthF phi i) dt)) (seq 0 (length xs))).
 Proof. exact precalc_equals_onthefly. Qed.
+
+(** the coefficient arrays the Python constant-parameter drivers precompute: arrays that agree with coef_a / coef_b0 / coef_c on the
+    three index classes (first point, generic interior point, last point) - which the per-run translator proves, from the current
+    source, for every array of _one_pop/_two_pops/_three_pops_const_params - make the precomputed-coefficient solve the line solve
+    of the model *)
+Theorem C02_python_precalc_arrays_give_model_line : forall xs (Vf Mf : R -> R) nu c0 c1 dj (a b c : nat -> R),
+  (2 <= length xs)%nat ->
+  a 0%nat = coef_a xs Vf Mf dj 0 ->
+  (forall i, (1 <= i)%nat -> (i <= length xs - 2)%nat -> a i = coef_a xs Vf Mf dj i) ->
+  a (length xs - 1)%nat = coef_a xs Vf Mf dj (length xs - 1) ->
+  b 0%nat = coef_b0 xs Vf Mf nu c0 c1 dj 0 ->
+  (forall i, (1 <= i)%nat -> (i <= length xs - 2)%nat -> b i = coef_b0 xs Vf Mf nu c0 c1 dj i) ->
+  b (length xs - 1)%nat = coef_b0 xs Vf Mf nu c0 c1 dj (length xs - 1) ->
+  c 0%nat = coef_c xs Vf Mf dj 0 ->
+  (forall i, (1 <= i)%nat -> (i <= length xs - 2)%nat -> c i = coef_c xs Vf Mf dj i) ->
+  c (length xs - 1)%nat = coef_c xs Vf Mf dj (length xs - 1) ->
+  forall dt phi, length phi = length xs ->
+  precalc_solve (map a (seq 0 (length xs))) (map b (seq 0 (length xs))) (map c (seq 0 (length xs))) dt phi
+  = line_solve xs Vf Mf nu c0 c1 dt dj phi.
+Proof. exact python_coefficients_give_model_line. Qed.
 
 (** non-vacuity: a concrete 3-point system with non-vanishing pivots, solved by the algorithm *)
 Example C02_nonvacuous :
